@@ -149,7 +149,58 @@ def c14(tier, seed):
         'small scope: all strings up to length 5 (thorough 6) over 9 byte classes, bare and after valid 14/15/16-token prefixes of every language, boundary-length families around the buffer size; other byte values are represented by their class only',
         'run in ASan+UBSan builds with and without assertions; each string sits in an exactly sized heap block'])
 
-CHECKS = {'C09': c09, 'C14': c14, 'C10': c10, 'C12': c12, 'C13': c13, 'C15': c15, 'C18': c18, 'C01': c01, 'C02': c02, 'C03': c03, 'C04': c04, 'C05': c05, 'C06': c06, 'C07': c07, 'C08': c08, 'C11': c11, 'C17': c17}
+def c19(tier, seed):
+    progs = [('e2_phrase', ['c01']), ('e2_phrase', ['c03']), ('e2_prefix', []), ('e2_detect', []), ('e2_strings', []), ('e2_words', []), ('e2_crypt', []), ('e1_bfs', ['crypt'])]
+    if tier == 'thorough':
+        progs += [('e2_coin', ['--tier', 'quick']), ('e1_bfs', ['api', '2']), ('e2_gf', ['--stride', '61'])]
+    runs = []
+    for prog, args in progs:
+        for mode in ('schar', 'uchar'):
+            runs.append(Run(prog, mode, args, label='%s[%s] %s' % (prog, mode, ' '.join(args))))
+    def diff(results):
+        out = []; cmp_blocks = 0
+        for i in range(0, len(results), 2):
+            (ra, a), (rb, b) = results[i], results[i + 1]
+            pa, pb = a['parts'], b['parts']
+            if len(pa) != len(pb):
+                out.append({'key': 'c19:parts:%s' % ra.prog, 'replay': '', 'msg': '%s produced %d parts with signed char and %d with unsigned char' % (ra.label, len(pa), len(pb))}); continue
+            for x, y in zip(pa, pb):
+                cmp_blocks += 1
+                if x['timed_out'] or y['timed_out']:
+                    continue
+                if (x['digest'], x['cases'], x['calls'], x['classes']) != (y['digest'], y['cases'], y['calls'], y['classes']):
+                    dk = [k for k in x['classes'] if x['classes'][k] != y['classes'].get(k)]
+                    out.append({'key': 'c19:transcript:%s:%s' % (ra.prog, x['name'][:40].replace(' ', '_')), 'replay': '',
+                                'msg': 'transcripts differ between -fsigned-char and -funsigned-char builds in %s / %s: digest %s vs %s, outcome classes that differ: %s' % (ra.label, x['name'], x['digest'], y['digest'], {k: (x['classes'][k], y['classes'].get(k)) for k in dk})})
+            for k in [k for k in a if k.startswith('e1_')]:
+                if a[k] != b.get(k):
+                    out.append({'key': 'c19:e1:%s' % k, 'replay': '', 'msg': 'E1 %s differs between signedness builds: %s vs %s' % (k, a[k], b.get(k))})
+        diff.blocks = cmp_blocks
+        return out
+    def cov(results):
+        return {'blocks_compared': getattr(diff, 'blocks', 0), 'configurations': ['-fsigned-char', '-funsigned-char']}
+    return check('C19', tier, seed, runs, keyfilter=lambda k: not k.startswith('c07:prefix-pair'), post=diff, extra_cov=cov, budget_s=(900 if tier == 'quick' else 2400), assumptions=ASSUME_COMMON + [
+        'the two configurations are gcc -fsigned-char and -funsigned-char on x86-64; every E2/E1 script is run against both builds, each must satisfy its own oracle (so both equal the reference model) and the per-part transcripts (rolling digest of every status and output, case and outcome counts) must be identical'])
+
+def c16(tier, seed):
+    modes = ['gcc-O2', 'gcc-O0'] if tier == 'quick' else ['gcc-O0', 'gcc-O1', 'gcc-O2', 'gcc-O3', 'gcc-Os', 'clang-O0', 'clang-O2', 'clang-O3']
+    runs = [Run('e4_residue', m, ['--build', m], label='e4_residue[%s]' % m) for m in modes]
+    runs.append(Run('e1_bfs', 'asan', ['api', '2']))     # zero-at-free / memzero-before-free on every free of every reachable history
+    def cov(results):
+        return {'builds': modes, 'cells_reached_per_build': {res['_label']: res.get('cells_reached') for r, res in results if r.prog == 'e4_residue'},
+                'bytes_scanned': sum(res.get('bytes_scanned', 0) for r, res in results), 'cells_expected': 60}
+    def post(results):
+        out = []
+        for r, res in results:
+            if r.prog == 'e4_residue' and res.get('cells_reached') is not None and res.get('cells_reached') != 60:
+                out.append({'key': 'harness:e4-cells:%s' % r.mode, 'replay': '', 'msg': '%s reached %s of 60 (function, exit) cells' % (res['_label'], res.get('cells_reached'))})
+        return out
+    return check('C16', tier, seed, runs, keyfilter=pref('c16:', 'harness:'), extra_cov=cov, post=post, assumptions=ASSUME_COMMON + [
+        'what a given compiler leaves behind: the build matrix is the claim (quick: gcc -O2, -O0; thorough: gcc -O0..-Os, clang -O0/-O2/-O3), x86-64',
+        'dependency callbacks repaint the stack below their frames; residue inside the dependencies (utf8proc heap, KDF) is outside the library',
+        'single word indices (11 bits) are not searched, only adjacent pairs; secrets are searched as 8-byte windows'])
+
+CHECKS = {'C16': c16, 'C19': c19, 'C09': c09, 'C14': c14, 'C10': c10, 'C12': c12, 'C13': c13, 'C15': c15, 'C18': c18, 'C01': c01, 'C02': c02, 'C03': c03, 'C04': c04, 'C05': c05, 'C06': c06, 'C07': c07, 'C08': c08, 'C11': c11, 'C17': c17}
 
 def setup():
     for m in ('plain', 'asan'):
@@ -161,8 +212,12 @@ def setup():
 
 SETUP_PROGS = [('e2_phrase', ['asan']), ('e2_gf', ['plain', 'asan']), ('e2_kdf', ['plain', 'asan']), ('e2_coin', ['asan']),
                ('e2_storage', ['asan']), ('e2_words', ['asan']), ('e2_prefix', ['asan']), ('e2_birthday', ['asan']), ('e2_maxlen', ['asan']),
-               ('e1_bfs', ['asan']), ('e2_crypt', ['asan']), ('e2_tape', ['asan']), ('e2_fault', ['asan']), ('e2_detect', ['asan']), ('e2_strings', ['asan', 'dbg'])]
+               ('e1_bfs', ['asan']), ('e2_crypt', ['asan']), ('e2_tape', ['asan']), ('e2_fault', ['asan']), ('e2_detect', ['asan']), ('e2_strings', ['asan', 'dbg']), ('e4_residue', ['gcc-O2', 'gcc-O0'])]
 ENGINES = [
+ {'name': 'E4', 'path': 'harness/e4_residue.c', 'serves_properties': ['C16'],
+  'kind_free_text': 'exhaustive enumeration of (API function, exit path) cells x compiler/optimisation builds on a dedicated painted stack, followed by a full scan of the dead stack and the library static data for secret needles; zero-at-free and memzero-before-free at every release'},
+ {'name': 'E5', 'path': 'lib/checks.py:c19 + harness/e2_*.c, e1_bfs.c', 'serves_properties': ['C19'],
+  'kind_free_text': 'configuration enumeration: the exhaustive E1/E2 scripts are executed against -fsigned-char and -funsigned-char builds of the library and their transcripts compared part by part'},
  {'name': 'E1', 'path': 'harness/e1_bfs.c', 'serves_properties': ['C10', 'C12', 'C13', 'C15', 'C18'],
   'kind_free_text': 'explicit-state breadth-first search over API histories on the real library to fixpoint; states rebuilt by replay, de-duplicated on library sections + live seed bytes + environment; every transition compared with the reference model, observation battery in every new state; allocation faults as a state component'},
  {'name': 'E2', 'path': 'harness/e2_*.c', 'serves_properties': ['C01', 'C02', 'C03', 'C04', 'C05', 'C06', 'C07', 'C08', 'C09', 'C11', 'C12', 'C14', 'C15', 'C17', 'C18'],
@@ -177,6 +232,12 @@ META = {
  'C03': dict(engine='E2', design_ref='DESIGN.md section 5 C03', technique='exhaustive enumeration of seed factors, byte comparison of every emitted phrase with an independent reference encoder',
    text='Same enumeration as C01 with a different oracle: every phrase emitted by polyseed_encode must be byte-identical to the phrase computed by the reference model (README bit layout, golden word lists, coin XOR, separator, NFC), the stored check value must equal the reference GF(2048) value, and re-encoding after unrelated operations must give the same bytes. A bit-linear packing is pinned by the single-bit seeds and their pairs, which are enumerated completely.',
    note='Trusted: ' + TB + '.'),
+ 'C16': dict(engine='E4', design_ref='DESIGN.md section 5 C16', technique='enumeration of every API function x exit path x compiler build on a painted stack with full residue scan; wipe-before-free checked on every free of the E1 state space',
+   text='Each of 60 (function, exit) cells - create OK/unsupported/memory, load OK/memory/5 format causes/checksum/unsupported, both decoders x OK/word count/language/checksum/memory/unsupported x 3 languages, multiple languages, encode in composing and plain languages, crypt with ASCII and non-ASCII password, keygen, store, getters, free - is executed on a dedicated 256 KiB stack painted 0xA5; afterwards the complete dead stack and the library writable sections are searched for the secret bytes, the encrypted secret, the mask, the password (raw, NFKD), every phrase word and adjacent word-index pairs (u16/u32/u64). At every free the block must be zero and covered by an earlier injected memzero. Repeated for each compiler build.',
+   note='Trusted: ' + TB + ', makecontext. Sees what these compilers leave behind on x86-64.'),
+ 'C19': dict(engine='E5', design_ref='DESIGN.md section 5 C19', technique='configuration enumeration (both char signednesses) x the exhaustive E1/E2 scripts, transcript comparison',
+   text='The phrase sweeps (all ten languages), the prefix/accent variants, the detection strings, the small-scope strings, the word-list sweep, the password masks and the E1 crypt profile are executed against two builds of the library (-fsigned-char, -funsigned-char). Each build must pass the oracles of those scripts, and the per-part transcripts (digest of every status and output, counts, outcome classes, E1 state/transition counts) must be equal; a violation inside one build carries the replayable case.',
+   note='Trusted: ' + TB + '. Only gcc on x86-64 with the two flag settings; other ABIs are represented by the flag.'),
  'C09': dict(engine='E2', design_ref='DESIGN.md section 5 C09', technique='bounded-deviation exhaustive exploration of phrase strings (<=2 deviations from base phrases), differential auto vs 10 explicit decoders + reference decoder',
    text='Every single deviation and pairs of deviations (token replaced by a representative of each of the 68 cross-language recognition classes, unknown, empty; separator doubled, ideographic, no-break; leading/trailing spaces, 17th token, 15 tokens) from 28 base phrases (each language valid/bad check word, phrases recognised by 6 / 2 lists) x coins x masks x failing allocation. For each string: auto = OK implies exactly one language recognises all tokens and equals its explicit result; MULT_LANG iff >= 2; LANG iff none; NUM_WORDS first; plus equality with the reference decoder and coverage of all 22 feasible rows of the simultaneous-error table.',
    note='Trusted: ' + TB + '. Deviation bound 2 (thorough: all 120 position pairs).'),
